@@ -1,5 +1,5 @@
 (* Props/C17.v -- property C17: rendered error reports are terminal-safe, cropped and show the right line. *)
-From SS Require Import Model.Snippet Proofs.SnippetSan Proofs.SnippetCrop.
+From SS Require Import Model.Snippet Proofs.SnippetSan Proofs.SnippetCrop Proofs.SnippetRows.
 Local Open Scope N_scope.
 
 (* The sanitiser applied to every rendered snippet (and, after the fix of F17, to the whole rendered
@@ -133,3 +133,38 @@ Check C17_example :
   /\ crop_line [97; 195; 169; 98; 99; 100; 101] 2 4 = ([226; 128; 166; 195; 169; 98; 99; 226; 128; 166], 1, 3)
   /\ window_rows 7 9 = (5, 9).
 Print Assumptions C17_example.
+
+(* The table of line starts is exactly: 0, and the position after every line break (LF, CRLF at its LF, lone CR),
+   in increasing order and inside the text; so the byte window cut out for rows ws..we starts at the start of row
+   ws, ends at the start of row we + 1 (or the end of the text) and is a well-formed range of the text. *)
+Theorem C17_line_starts_are_break_successors : forall s, s <> [] -> line_starts s = 0 :: map (fun k => N.of_nat k + 1) (breaks s).
+Proof. exact line_starts_are_break_successors. Qed.
+Check C17_line_starts_are_break_successors : forall s, s <> [] -> line_starts s = 0 :: map (fun k => N.of_nat k + 1) (breaks s).
+Print Assumptions C17_line_starts_are_break_successors.
+
+Theorem C17_breaks_are_the_line_ends : forall s k, In k (breaks s) <-> exists b, nth_error s k = Some b /\ is_break_at b (skipn (S k) s) = true.
+Proof. exact breaks_spec. Qed.
+Check C17_breaks_are_the_line_ends : forall s k, In k (breaks s) <-> exists b, nth_error s k = Some b /\ is_break_at b (skipn (S k) s) = true.
+Print Assumptions C17_breaks_are_the_line_ends.
+
+Theorem C17_line_starts_sorted : forall s, Sorted.StronglySorted N.lt (line_starts s).
+Proof. exact line_starts_sorted. Qed.
+Check C17_line_starts_sorted : forall s, Sorted.StronglySorted N.lt (line_starts s).
+Print Assumptions C17_line_starts_sorted.
+
+Theorem C17_window_bounds_well_formed : forall text ws we,
+  text <> [] -> 1 <= ws -> ws <= we -> we <= N.of_nat (length (line_starts text)) ->
+  let '(a, b) := window_bounds text (line_starts text) ws we in
+  a <= b /\ b <= blen text /\
+  a = nth (N.to_nat (ws - 1)) (line_starts text) 0 /\
+  (we < N.of_nat (length (line_starts text)) -> b = nth (N.to_nat we) (line_starts text) 0) /\
+  (we = N.of_nat (length (line_starts text)) -> b = blen text).
+Proof. exact window_bounds_well_formed. Qed.
+Check C17_window_bounds_well_formed : forall text ws we,
+  text <> [] -> 1 <= ws -> ws <= we -> we <= N.of_nat (length (line_starts text)) ->
+  let '(a, b) := window_bounds text (line_starts text) ws we in
+  a <= b /\ b <= blen text /\
+  a = nth (N.to_nat (ws - 1)) (line_starts text) 0 /\
+  (we < N.of_nat (length (line_starts text)) -> b = nth (N.to_nat we) (line_starts text) 0) /\
+  (we = N.of_nat (length (line_starts text)) -> b = blen text).
+Print Assumptions C17_window_bounds_well_formed.
